@@ -1357,12 +1357,14 @@ class Evaluator(object):
         finally:
             self._depth -= 1
 
-    def _tuple_arity(self, call):
+    def _tuple_arity(self, call, _depth=0, _module=None):
         """number of results of a repository function whose every return statement is a tuple literal of one length (None otherwise)"""
         f = call[1]
         target = None
         try:
-            if f[0] == 'name':
+            if f[0] == 'name' and _module is not None:
+                target = _module.functions.get(f[1])
+            elif f[0] == 'name':
                 target = self.fi.module.functions.get(f[1])
                 if target is None:
                     r = self.P.resolve_name(self.fi.module, f[1])
@@ -1383,6 +1385,12 @@ class Evaluator(object):
             if isinstance(n, ast.Return):
                 if isinstance(n.value, ast.Tuple) and not any(isinstance(e, ast.Starred) for e in n.value.elts):
                     lens.add(len(n.value.elts))
+                elif isinstance(n.value, ast.Call) and isinstance(n.value.func, ast.Name) and n.value.func.id in target.module.functions \
+                        and n.value.func.id != target.name and _depth < 3:
+                    k = self._tuple_arity(('call', ('name', n.value.func.id), (), ()), _depth + 1, target.module)
+                    if k is None:
+                        return None
+                    lens.add(k)
                 else:
                     return None
         return lens.pop() if len(lens) == 1 else None
@@ -1499,7 +1507,8 @@ class Evaluator(object):
         params = list(fi.params)
         env = {}
         # bound method call: receiver is the first parameter
-        if fi.cls is not None or (f[0] == 'attr' and self._is_method_style(fi, f)):
+        is_static = any(ast.unparse(d) == 'staticmethod' for d in (getattr(fi, 'decorators', None) or []))
+        if (fi.cls is not None or (f[0] == 'attr' and self._is_method_style(fi, f))) and not is_static:
             if f[0] == 'attr' and not self._is_module_attr(f):
                 args = [f[1]] + args
         starkw = [v for k, v in call[3] if k == '**']
